@@ -133,8 +133,8 @@ func (c *Ctx) shortLockExceptions() map[string]lockException {
 							}
 							if kind == "select-blocking" {
 								for _, impl := range c.senderImpls() {
-									if impl == fn {
-										return true
+									if impl == fn || c.W.ownedBy(fn, impl) {
+										return true // the sender's wait, also when split off into its private helper
 									}
 								}
 							}
